@@ -83,6 +83,37 @@ def random_history(rng, ops_w, n):
     return seq
 
 
+def near_duplicate_pool():
+    """[A0, B0, A1, B1, ...]: A and B have the same length and differ in one late byte only, with different outcomes."""
+    out = []
+    def dom(n_labels, ch, rep):
+        return ".".join([ch * rep] * n_labels)
+    bases = [b"user@example.com", b"first.last@mail.example.org", b"a" * 60 + b"@" + b"b" * 60 + b".com",
+             b"a" * 64 + b"@" + (b"d" * 63 + b".") * 3 + b"d" * 57 + b".com"]
+    for nl, ch, rep in ((2, "\u4e2d", 19), (4, "\u4e2d", 19), (5, "\u4e2d", 19), (6, "\u0436", 24), (5, "\uac00", 18)):
+        bases.append(b"a" * 64 + b"@" + dom(nl, ch, rep).encode("utf-8") + b".com")
+        bases.append(b"user@" + dom(nl, ch, rep).encode("utf-8") + b".org")
+    bases.append(b"x@" + ("\u00e9" * 20 + ".").encode("utf-8") * 40 + b"com")          # > 1 KiB, not a valid name
+    bases.append(b"x@" + (b"ab." * 1400) + b"com")                                       # > 4 KiB
+    for a in bases:
+        for b in (a[:-1] + b"-", a[:-1] + b"_", a[:-3] + b"zzq", a[:-3] + b"c m"):
+            if b != a and len(b) == len(a):
+                out += [a, b]
+        # an early difference as well (same length, same tail)
+        out += [a, b"." + a[1:]]
+    # same length, different verdict, same digest under ten well-known 32-bit string hashes (tools/gen_collisions.py): a shortcut keyed
+    # on length + digest of the address takes the second for the first
+    import json, os
+    try:
+        col = json.load(open(os.path.join(core.VERIF, "vlib", "data", "collisions.json")))
+    except OSError:
+        col = {}
+    for name in sorted(col):
+        for a, b in col[name]:
+            out += [a.encode(), b.encode()]
+    return out
+
+
 def main(tier, seed):
     rep = core.Report(PROP, tier, seed)
     cx = _ctx.Ctx(PROP)
@@ -124,6 +155,17 @@ def main(tier, seed):
                 p = random_history(r, w, r.choice([5, 20, 60, 200]))
                 ps.append([("e%d" % r.randrange(len(big))) if o == "E" else o for o in p])
             jobs.append((w_hist, (exe, big, ps, extra, "random")))
+    # near-duplicates validated back to back: same length, common prefix of 15 ... 4000 bytes, different outcome (a "same as last
+    # time" shortcut that compares a prefix, a length or a digest of the address shows here; the fresh-object differential judges)
+    dup = near_duplicate_pool()
+    dprogs = []
+    for i in range(0, len(dup), 2):
+        for m in (3, 0, 1, 2):
+            for t in ("t1", "t0"):
+                dprogs.append(["r%d" % m, "s", t, "e%d" % i, "e%d" % (i + 1), "m", "e%d" % (i + 1), "e%d" % i, "m", "e%d" % i, "e%d" % i,
+                               "e%d" % (i + 1)])
+    for vi, (name, exe, extra) in enumerate(variants):
+        jobs.append((w_hist, (exe, dup, dprogs, extra, "near-duplicates")))
     # memcheck pass on an uninstrumented build (definedness of every observed field)
     plain = cx.exe("plain-O0-hist", driver=("drv/hist.c",), san="plain-O0")
     r = random.Random(seed * 4099)
